@@ -363,6 +363,17 @@ pub fn run(opts: &Opts) -> Report {
                     rep.fail("oracle", &format!("set-negate/{}", op.sig()), vec![format!("text={:?}", text), line.clone(), "toggle_negate".into()], &(!*g).to_string(), &b2s(&g2));
                 }
             }
+            // a set is a set: whether sort() was called on it or not, the answer is the same
+            // (SAMERANGE with `all` is left out: it tests the whole range of "the" leftmost and "the" rightmost item, and with
+            // several items sharing the lowest begin or the highest end which item that is depends on the order of insertion,
+            // sorted or not)
+            if (*sa_sorted || *sb_sorted) && !(op.k == K::SameRange && op.all) {
+                let (ua, ub) = (mkset(res, a, false), mkset(res, b, false));
+                let g_unsorted = guarded(|| ua.test_set(&o, &ub, res));
+                if g_unsorted.is_ok() && got.is_ok() && g_unsorted != got {
+                    rep.fail("oracle", &format!("set-sorted-differs/{}", op.sig()), vec![format!("text={:?}", text), line.clone(), "the same sets without sort()".into()], &b2s(&g_unsorted), &b2s(&got));
+                }
+            }
             let mut lines = vec![line];
             let mut outs = vec![b2s(&got)];
             // the two mixed entry points on the first element
